@@ -20,6 +20,7 @@ Act(e) ==
     LET p == e.proc IN
     CASE e.label = "idle" -> Start(p)
       [] e.label = "lookup" -> Lookup(p)
+      [] e.label = "mkdir" -> Mkdir(p)
       [] e.label = "writesrc" -> WriteSrc(p)
       [] e.label = "ccbegin" -> CcBegin(p)
       [] e.label = "cchalf" -> CcHalf(p)
@@ -43,6 +44,8 @@ Reset == /\ final' = "absent"
          /\ pc' = [p \in Procs |-> "idle"]
          /\ cc' = [p \in Procs |-> FALSE]
          /\ got' = [p \in Procs |-> "none"]
+         /\ dir' = FALSE
+         /\ seen' = [p \in Procs |-> FALSE]
          /\ crashes' = 0
 
 EndOK(e) == \A p \in Procs :
